@@ -38,6 +38,8 @@ pub struct Open {
     pub print_i64: PrintFn,
     pub println_i64: PrintFn,
     pub last_calloc: LastCallocFn,
+    /// was the memory handed out as heap zero-filled (calloc, or malloc followed by memset)?
+    pub heap_zeroed: unsafe extern "C" fn() -> c_int,
     /// handlers registered with atexit (simulated process end)
     pub run_atexit: unsafe extern "C" fn(),
 }
@@ -62,6 +64,7 @@ impl Lib {
                 print_i64: std::mem::transmute::<*mut c_void, PrintFn>(sym("print_i64")),
                 println_i64: std::mem::transmute::<*mut c_void, PrintFn>(sym("println_i64")),
                 last_calloc: std::mem::transmute::<*mut c_void, LastCallocFn>(sym("sim_last_calloc")),
+                heap_zeroed: std::mem::transmute::<*mut c_void, unsafe extern "C" fn() -> c_int>(sym("sim_heap_zeroed")),
                 run_atexit: std::mem::transmute::<*mut c_void, unsafe extern "C" fn()>(sym("sim_run_atexit")),
             }
         }
@@ -104,9 +107,18 @@ static uint64_t last_n, last_sz;
 static char dummy_heap[128];
 void sim_set_hooks(asm_hook_t a, write_hook_t w) {{ asm_hook = a; write_hook = w; }}
 ssize_t sim_write(int fd, const void *buf, size_t n) {{ return write_hook(fd, buf, n); }}
-void *sim_calloc(size_t n, size_t sz) {{ last_n = n; last_sz = sz; return dummy_heap; }}
+/* the heap: never really allocated (the emulated routine has its own simulated memory); what is
+   recorded is how many bytes were requested and whether they are zero-filled when asm_main starts */
+static int heap_zeroed;
+void *sim_calloc(size_t n, size_t sz) {{ last_n = n; last_sz = sz; heap_zeroed = 1; return dummy_heap; }}
+void *sim_malloc(size_t n) {{ last_n = n; last_sz = 1; heap_zeroed = 0; return dummy_heap; }}
+void *sim_memset(void *p, int c, size_t n) {{
+  if (p == (void *)dummy_heap) {{ if (c == 0 && n >= last_n * last_sz) heap_zeroed = 1; return p; }}
+  unsigned char *q = p; while (n--) *q++ = (unsigned char)c; return p;
+}}
 void sim_free(void *p) {{ (void)p; }}
 uint64_t sim_last_calloc(void) {{ return last_n * last_sz; }}
+int sim_heap_zeroed(void) {{ return heap_zeroed; }}
 /* the C library's buffered output functions end at the same seam as write (a runtime that prints
    with printf or fputs instead of write is judged by the bytes it produces, in order) */
 #include <stdio.h>
@@ -178,7 +190,7 @@ impl CRuntime {
                     }
                     Ok(())
                 };
-                let defs = ["-Dmain=scc_driver_main", "-Dwrite=sim_write", "-Dcalloc=sim_calloc", "-Dfree=sim_free", "-Datexit=sim_atexit", "-Dexit=sim_exit", "-Dprintf=sim_printf", "-Dfprintf=sim_fprintf", "-Ddprintf=sim_dprintf", "-Dputs=sim_puts", "-Dfputs=sim_fputs", "-Dputchar=sim_putchar", "-Dfputc=sim_fputc", "-Dputc=sim_fputc", "-Dfwrite=sim_fwrite", "-Dfflush=sim_fflush", "-U_FORTIFY_SOURCE"];
+                let defs = ["-Dmain=scc_driver_main", "-Dwrite=sim_write", "-Dcalloc=sim_calloc", "-Dmalloc=sim_malloc", "-Dmemset=sim_memset", "-Dfree=sim_free", "-Datexit=sim_atexit", "-Dexit=sim_exit", "-Dprintf=sim_printf", "-Dfprintf=sim_fprintf", "-Ddprintf=sim_dprintf", "-Dputs=sim_puts", "-Dfputs=sim_fputs", "-Dputchar=sim_putchar", "-Dfputc=sim_fputc", "-Dputc=sim_fputc", "-Dfwrite=sim_fwrite", "-Dfflush=sim_fflush", "-U_FORTIFY_SOURCE"];
                 let mut a: Vec<String> = vec!["-fPIC".into(), "-O1".into(), "-w".into(), "-c".into(), format!("driver{k}.c"), "-o".into(), format!("driver{k}.o")];
                 a.extend(defs.iter().map(|s| s.to_string()));
                 run(&a.iter().map(|s| s.as_str()).collect::<Vec<_>>())?;
@@ -195,7 +207,7 @@ impl CRuntime {
                     if h.is_null() {
                         return Err(format!("dlopen {so} failed"));
                     }
-                    for n in ["sim_set_hooks", "sim_call_main", "print_i64", "println_i64", "sim_last_calloc", "sim_run_atexit"] {
+                    for n in ["sim_set_hooks", "sim_call_main", "print_i64", "println_i64", "sim_last_calloc", "sim_heap_zeroed", "sim_run_atexit"] {
                         let c = CString::new(n).unwrap();
                         if libc::dlsym(h, c.as_ptr()).is_null() {
                             return Err(format!("symbol {n} missing in {so}"));
@@ -342,6 +354,7 @@ pub struct ExeRun {
     pub args_seen: Vec<i64>,
     pub asm_main_calls: u32,
     pub calloc_bytes: u64,
+    pub heap_zeroed: bool,
     pub fds: BTreeSet<i32>,
 }
 
@@ -364,6 +377,7 @@ pub fn run_exe(rt: &CRuntime, prog: Option<x86::Prog>, k: usize, argv: &[String]
     ptrs.push(std::ptr::null());
     let status;
     let calloc_bytes;
+    let heap_zeroed;
     unsafe {
         JOB = &mut job;
         RT = rt;
@@ -373,11 +387,12 @@ pub fn run_exe(rt: &CRuntime, prog: Option<x86::Prog>, k: usize, argv: &[String]
         status = (o.main)(cargs.len() as c_int, ptrs.as_ptr());
         native_leave();
         calloc_bytes = (o.last_calloc)();
+        heap_zeroed = (o.heap_zeroed)() != 0;
         CUR = std::ptr::null();
         o.close();
         JOB = std::ptr::null_mut();
     }
-    ExeRun { stdout: job.stdout, status: status & 0xff, outcome: job.outcome, args_seen: job.args_seen, asm_main_calls: job.asm_main_calls, calloc_bytes, fds: job.fds }
+    ExeRun { stdout: job.stdout, status: status & 0xff, outcome: job.outcome, args_seen: job.args_seen, asm_main_calls: job.asm_main_calls, calloc_bytes, heap_zeroed, fds: job.fds }
 }
 
 /// call the real print primitive directly through the write seam
@@ -720,6 +735,9 @@ pub fn run_source(rt: &CRuntime, src: &str, argv: &[String], plan: &EnvPlan, key
             return Verdict::Viol(format!("{:?}", v.class), v.msg.clone());
         }
     }
+    if r.asm_main_calls == 1 && !r.heap_zeroed {
+        return Verdict::Viol("Driver".into(), "the driver hands the routine a heap that is not zero-filled".into());
+    }
     if r.asm_main_calls != 1 {
         return Verdict::Viol("Driver".into(), format!("the driver called asm_main {} times", r.asm_main_calls));
     }
@@ -924,7 +942,7 @@ fn probe_driver(dir: &str, step: usize, k: usize, text: &str, heap_mb: u64) -> R
     };
     let co = format!("{dir}/probe{step}.o");
     let sho = format!("{dir}/probe{step}_shim.o");
-    if !run(&["-fPIC", "-O1", "-w", "-c", &c, "-o", &co, "-Dmain=scc_driver_main", "-Dwrite=sim_write", "-Dcalloc=sim_calloc", "-Dfree=sim_free", "-Datexit=sim_atexit", "-Dexit=sim_exit", "-Dprintf=sim_printf", "-Dfprintf=sim_fprintf", "-Ddprintf=sim_dprintf", "-Dputs=sim_puts", "-Dfputs=sim_fputs", "-Dputchar=sim_putchar", "-Dfputc=sim_fputc", "-Dputc=sim_fputc", "-Dfwrite=sim_fwrite", "-Dfflush=sim_fflush", "-U_FORTIFY_SOURCE"])? {
+    if !run(&["-fPIC", "-O1", "-w", "-c", &c, "-o", &co, "-Dmain=scc_driver_main", "-Dwrite=sim_write", "-Dcalloc=sim_calloc", "-Dmalloc=sim_malloc", "-Dmemset=sim_memset", "-Dfree=sim_free", "-Datexit=sim_atexit", "-Dexit=sim_exit", "-Dprintf=sim_printf", "-Dfprintf=sim_fprintf", "-Ddprintf=sim_dprintf", "-Dputs=sim_puts", "-Dfputs=sim_fputs", "-Dputchar=sim_putchar", "-Dfputc=sim_fputc", "-Dputc=sim_fputc", "-Dfwrite=sim_fwrite", "-Dfflush=sim_fflush", "-U_FORTIFY_SOURCE"])? {
         return Ok(Some("does not compile".into()));
     }
     if !run(&["-fPIC", "-O1", "-c", &sh, "-o", &sho])? {
@@ -953,6 +971,12 @@ fn probe_driver(dir: &str, step: usize, k: usize, text: &str, heap_mb: u64) -> R
         set(asm_hook, write_hook);
         let main: MainFn = std::mem::transmute::<*mut c_void, MainFn>(main);
         let last_calloc: LastCallocFn = std::mem::transmute::<*mut c_void, LastCallocFn>(lc);
+        let hz = sym("sim_heap_zeroed");
+        if hz.is_null() {
+            return Err("probe symbols missing".into());
+        }
+        let hz: unsafe extern "C" fn() -> c_int = std::mem::transmute(hz);
+        let zeroed = || hz() != 0;
         let probe = |argv: &[String]| -> (i32, u32, Vec<i64>, Vec<u8>) {
             let mut job = Job {
                 prog: None,
@@ -983,6 +1007,8 @@ fn probe_driver(dir: &str, step: usize, k: usize, text: &str, heap_mb: u64) -> R
             Some(format!("called asm_main {calls} time(s) with {seen:?} for the arguments {want:?}"))
         } else if last_calloc() != heap_mb * 1024 * 1024 {
             Some(format!("requested {} bytes of heap instead of {} MiB", last_calloc(), heap_mb))
+        } else if !zeroed() {
+            Some("hands the routine a heap that is not zero-filled".to_string())
         } else {
             let mut more = good.clone();
             more.push("5".into());
